@@ -178,8 +178,11 @@ def main():
                         nb = in_child(lambda: run_schedule(pp, pkg, b, a, st, -1)[2]) or 0
                         lines[(ia, ib)] = n
                         ks = list(range(1, n + 1))
-                        if tier == 'quick' and len(ks) > 160:
-                            ks = sorted(rng.sample(ks, 160))
+                        # quick: 160 sampled switch points per pair - except in the warm scenario, where the window of a race on something
+                        # remembered from earlier calls is one line wide: every switch point of the short re-printed values
+                        cap = 3000 if (name == 'warm' and ia in (0, 2, 4) and ib in (1, 3)) else 160
+                        if tier == 'quick' and len(ks) > cap:
+                            ks = sorted(rng.sample(ks, cap))
                         scheds = [(k, None) for k in ks]
                         for _ in range(12 if tier == 'quick' else 150):
                             if n and nb:
